@@ -1,4 +1,5 @@
 import NanoVerif.Proofs.ClipBox
+import NanoVerif.Proofs.VarModel
 /-
 C18 — A variable colour font reproduces each master at its location (the part that is nanoemoji's own).
 What nanoemoji adds to ufo2ft's variable build: one static UFO per master, and the designspace
@@ -83,5 +84,95 @@ theorem clip_convex (lo0 lo1 hi0 hi1 p0 p1 t : Q) (ht0 : 0 ≤ t) (ht1 : t ≤ 1
     linarith
 
 example : axisRange [300, 700, 400] = some (300, 700) := by decide +kernel
+
+/-! ### what happens to the masters next: the variation model (Model/VarModel.lean — fontTools `varLib.models`
+transcribed, tied by `suite_var_model`) gives every master back at its own location. -/
+open NanoVerif.Var
+
+/-- **C18.2 (any model)** forward substitution over a unit lower-triangular scalar table reproduces master
+`i` at location `i` — for any number of masters and axes. -/
+theorem masters_reproduced_of_triangular (S : Nat → Nat → Q) (ms : List Q) (i : Nat) (m : Q)
+    (hi : ms[i]? = some m) (diag : S i i = 1) (upper : ∀ j, i < j → j < ms.length → S j i = 0) :
+    interpolate (fun j => S j i) (getDeltas id S ms) = m :=
+  deltas_reproduce S ms i m hi diag upper
+
+/-- … and when the deltas are rounded (gvar, HVAR, the COLR VarStore hold integers) the value at the master's
+location is off by the rounding error of that master's own delta only — errors do not accumulate. -/
+theorem masters_reproduced_rounded (rnd : Q → Q) (hr : ∀ x, |rnd x - x| ≤ 1 / 2) (S : Nat → Nat → Q) (ms : List Q)
+    (i : Nat) (m : Q) (hi : ms[i]? = some m) (diag : S i i = 1)
+    (upper : ∀ j, i < j → j < ms.length → S j i = 0) :
+    |interpolate (fun j => S j i) (getDeltas rnd S ms) - m| ≤ 1 / 2 := by
+  obtain ⟨y, hy⟩ := deltas_reproduce_round rnd S ms i m hi diag upper
+  rw [hy, show y + rnd (m - y) - m = rnd (m - y) - (m - y) by ring]
+  exact hr _
+
+theorem scalarTable_single (vs : List Q) (j i : Nat) (hj : j < vs.length) (hi : i < vs.length) :
+    scalarTable (vs.map fun v => [v]) j i = tent (support1 (vs.take j) (vs.getD j 0)) (vs.getD i 0) := by
+  have h := supportsGo_single [] vs
+  simp only [List.map_nil] at h
+  have hs := supportsGo1_getD [] vs j hj
+  simp only [List.nil_append] at hs
+  unfold scalarTable supports
+  simp only [h, List.getD_eq_getElem?_getD, List.getElem?_map, hs, Option.map_some, Option.getD_some,
+    List.getElem?_eq_getElem hi, supportScalar, List.zipWith_cons_cons, List.zipWith_nil_right, prodQ, mul_one]
+
+/-- **C18.2 (one axis, the whole model)** masters at distinct normalised positions on one axis, the default
+master first: the font's value at master `i`'s position is master `i`'s value — for any number of masters. -/
+theorem one_axis_masters_reproduced (vs ms : List Q) (i : Nat) (m : Q) (hnd : vs.Nodup)
+    (hr : ∀ v ∈ vs, -1 ≤ v ∧ v ≤ 1) (h0 : vs[0]? = some 0) (hlen : ms.length = vs.length)
+    (hi : ms[i]? = some m) : valueAt (vs.map fun v => [v]) ms [vs.getD i 0] = m := by
+  have hil : i < vs.length := by
+    rw [← hlen]
+    rcases Nat.lt_or_ge i ms.length with h | h
+    · exact h
+    · rw [List.getElem?_eq_none h] at hi; cases hi
+  have key := deltas_reproduce (scalarTable (vs.map fun v => [v])) ms i m hi
+    (by rw [scalarTable_single vs i i hil hil]; exact support1_own _ _)
+    (by
+      intro j hij hjl
+      have hjl' : j < vs.length := hlen ▸ hjl
+      rw [scalarTable_single vs j i hjl' hil]
+      have hvj : vs.getD j 0 = vs[j] := by simp [List.getD_eq_getElem?_getD, List.getElem?_eq_getElem hjl']
+      have hvi : vs.getD i 0 = vs[i] := by simp [List.getD_eq_getElem?_getD, List.getElem?_eq_getElem hil]
+      have h00 : vs[0]'(by omega) = 0 := by
+        have := h0; rw [List.getElem?_eq_getElem (by omega)] at this; exact Option.some.inj this
+      have hne : vs[j] ≠ vs[i] := fun e => by
+        have := (List.Nodup.getElem_inj_iff hnd).mp e; omega
+      have hj0 : vs[j] ≠ 0 := fun e => by
+        have := (List.Nodup.getElem_inj_iff hnd (hi := hjl') (hj := by omega)).mp (e.trans h00.symm); omega
+      rw [hvj, hvi]
+      refine support1_excludes _ _ _ hj0 (hr _ (List.getElem_mem _)).1 (hr _ (List.getElem_mem _)).2 ?_ (Ne.symm hne)
+      rw [List.mem_take_iff_getElem]
+      exact ⟨i, by simp [hij, hil], rfl⟩)
+  unfold valueAt
+  have hloc : (vs.map fun v => [v]).getD i [] = [vs.getD i 0] := by
+    simp [List.getD_eq_getElem?_getD, List.getElem?_eq_getElem hil]
+  unfold scalarTable at key
+  simp only [hloc] at key
+  exact key
+
+/-- **C18.3** the default location (the origin of the normalised space — `normalize_default`) gives the default
+master back. -/
+theorem default_location_reproduces_default (vs ms : List Q) (m : Q) (hnd : vs.Nodup)
+    (hr : ∀ v ∈ vs, -1 ≤ v ∧ v ≤ 1) (h0 : vs[0]? = some 0) (hlen : ms.length = vs.length)
+    (hm : ms[0]? = some m) : valueAt (vs.map fun v => [v]) ms [0] = m := by
+  have := one_axis_masters_reproduced vs ms 0 m hnd hr h0 hlen hm
+  have e : vs.getD 0 0 = 0 := by simp [List.getD_eq_getElem?_getD, h0]
+  rwa [e] at this
+
+/-- the axis triple `write_variable_font.main` declares (`axis_hull`: minimum and maximum over the masters, the
+configured default) sends the default to 0, the ends to ∓1 and every master position into [-1, 1] — the
+hypotheses of `one_axis_masters_reproduced`. -/
+theorem designspace_normalises (lo d hi : Q) (h : lo ≤ d ∧ d ≤ hi) :
+    normalizeValue d lo d hi = some 0
+      ∧ (lo < d → normalizeValue lo lo d hi = some (-1))
+      ∧ (d < hi → normalizeValue hi lo d hi = some 1) :=
+  ⟨normalize_default lo d hi h, fun c => normalize_min lo d hi ⟨c, h.2⟩, fun c => normalize_max lo d hi ⟨h.1, c⟩⟩
+
+-- non-vacuity: three masters on one axis (default, lighter, bolder) in the model's own order
+example : valueAt [[0], [-1], [1]] [500, 420, 640] [-1] = 420 ∧ valueAt [[0], [-1], [1]] [500, 420, 640] [1] = 640
+    ∧ valueAt [[0], [-1], [1]] [500, 420, 640] [0] = 500 ∧ valueAt [[0], [-1], [1]] [500, 420, 640] [1/2] = 570 := by
+  decide +kernel
+example : sortLocs [[1], [0], [-1/2], [-1]] = [[0], [-1/2], [-1], [1]] := by decide +kernel
 
 end NanoVerif.C18
